@@ -630,6 +630,27 @@ class Extractor:
                 t = sig[i]
                 if t.kind == 'id' and t.text in RESERVED and sig[i - 1].text != '.' and sig[i + 1].text != '!':
                     p.rewrite(t.start, t.end, t.text + '_', 'R8')
+        # R17: `x: &mut impl Trait` in argument position is an anonymous generic parameter; name it so that
+        # closure headers can mention the type (identical desugaring)
+        if 'R17' in fs.rewrites:
+            fired = False
+            names = []
+            i = parts['popen'] + 1
+            while i < parts['pclose']:
+                if sig[i].text == 'impl' and sig[i].kind == 'id':
+                    tr = sig[i + 1]
+                    gname = 'V' + tr.text
+                    p.rewrite(sig[i].start, tr.end, gname, 'R17', 'impl %s argument named %s' % (tr.text, gname))
+                    names.append('%s: %s' % (gname, tr.text))
+                    fired = True
+                i += 1
+            if not fired:
+                raise AnchorLost('%s: rewrite rule R17 listed but did not fire' % what)
+            ni = sig[parts['name_i']]
+            if sig[parts['name_i'] + 1].text == '<':
+                p.insert(sig[parts['name_i'] + 1].end, ', '.join(names) + ', ')
+            else:
+                p.insert(ni.end, '<' + ', '.join(names) + '>')
         # R0: name the return value
         has_spec = bool(fs.requires or fs.ensures or fs.decreases)
         if parts['ret'] and not fs.noret:
@@ -672,6 +693,12 @@ class Extractor:
                 raise AnchorLost('%s: loop %d not found (function has %d loops)' % (what, k, len(loops)))
             kw, lb = loops[k]
             p.insert(sig[lb].start, '\n' + txt + '\n')
+            if sig[kw].text == 'for' and re.search(r'\biter\.', txt):
+                # Verus names the ghost iterator of a for loop: `for x in iter: EXPR` (annotation, erased)
+                j = kw + 1
+                while sig[j].text != 'in':
+                    j += 1
+                p.insert(sig[j].end, ' iter:')
             if sig[kw].text == 'for' and 'iter:' in txt.split('\n')[0]:
                 pass
         # for-loop ghost iterator naming: "@loop k" text may start with "iter NAME" line
@@ -779,6 +806,26 @@ class Extractor:
                         fired = True
                 if not fired:
                     raise AnchorLost('%s: rewrite rule %s listed but did not fire' % (what, rule))
+        if 'R10a' in fs.rewrites:
+            # X.as_mut().filter(|_| C).map(|P| { BODY }).transpose()   (closure captures a &mut: unsupported by Verus)
+            #   ->  if let Some(P) = X.as_mut() { if C { match { BODY } { Ok(v) => Ok(Some(v)), Err(e) => Err(e) } } else { Ok(None) } } else { Ok(None) }
+            rx = re.compile(r'([A-Za-z_][A-Za-z0-9_]*)\s*\.as_mut\(\)\s*\.filter\(\|_\|\s*([A-Za-z_][A-Za-z0-9_]*)\)\s*\.map\(\|([A-Za-z_][A-Za-z0-9_]*)\|\s*(?=\{)')
+            m = rx.search(body)
+            if not m:
+                raise AnchorLost('%s: rewrite rule R10a listed but did not fire' % what)
+            ob = src.tok_index_at(body_s + m.end())
+            assert sig[ob].text == '{'
+            cb = sig[ob].match
+            inner = src.text[sig[ob].end:sig[cb].start]
+            if re.search(r'\breturn\b|\?|\bbreak\b|\bcontinue\b', re.sub(r'//.*', '', inner)):
+                raise AnchorLost('%s: R10a closure body contains control flow, rewrite not applicable' % what)
+            m2 = re.compile(r'\s*\)\s*\.transpose\(\)').match(src.text, sig[cb].end)
+            if not m2:
+                raise AnchorLost('%s: R10a: .transpose() not found after the closure' % what)
+            p.rewrite(body_s + m.start(), body_s + m.end(),
+                      'if let Some(%s) = %s.as_mut() { if %s { match ' % (m.group(3), m.group(1), m.group(2)), 'R10a')
+            p.rewrite(sig[cb].end, m2.end(),
+                      ' { Ok(verif_v) => Ok(Some(verif_v)), Err(verif_e) => Err(verif_e) } } else { Ok(None) } } else { Ok(None) }', 'R10a')
         # R9: closure parameter `_` handled in header rewrite.  R5 for call arguments in body:
         self.cfg_args(src, p, bo + 1, bc)
         text, log, orig = p.render()
